@@ -292,8 +292,7 @@ class TorState(object):
             kw['dirport'],
         )
         router.flags = kw.get('flags', [])
-        if 'bandwidth' in kw:
-            router.bandwidth = kw['bandwidth']
+        router.bandwidth = kw.get('bandwidth', 0)
         # a Router is re-used across consensus documents, so this has
         # to reflect *this* document only
         router.ip_v6 = list(kw.get('ip_v6', []))
